@@ -917,8 +917,8 @@ pub fn run(tier: &str) -> i32 {
     let mut logfold = Fold::new();
     let mut orders_per_content_max = 0usize;
     for (batch, seeds_on, n) in [
-        ("shipped-hasher", false, if quick { 1500usize } else { 60_000 }),
-        ("seeded-hasher", true, if quick { 3500 } else { 240_000 }),
+        ("shipped-hasher", false, if quick { 1500usize } else { 120_000 }),
+        ("seeded-hasher", true, if quick { 3500 } else { 600_000 }),
     ] {
         let thorough = !quick;
         let results = par_map(n, workers(), move |i| {
